@@ -1,1 +1,6 @@
 import SoxrModel.Properties.C05
+#print axioms Soxr.Properties.C05.prefix_consistency
+#print axioms Soxr.Properties.C05.same_length_same_samples
+#print axioms Soxr.Properties.C05.schedule_invariance
+#print axioms Soxr.Properties.C05.delivered_is_canonical
+#print axioms Soxr.Properties.C05.control_is_the_count_model
